@@ -621,6 +621,7 @@ func clearingLoop(fn *ssa.Function, primary ssa.Value) (*rangeLoop, string) {
 			return
 		}
 		// guards inside the loop body
+		okGuard := false
 		for _, f := range guard.BlockFacts(ins.Block()) {
 			if rl.Header.Dominates(f.Cond.(ssa.Instruction).Block()) && f.Cond.(ssa.Instruction).Block() != rl.Header {
 				// a guard inside the loop: must be elem.fixedID != primary.fixedID
@@ -630,6 +631,22 @@ func clearingLoop(fn *ssa.Function, primary ssa.Value) (*rangeLoop, string) {
 				if isC && op == token.NEQ && okx && oky && fx == "fixedID" && fy == "fixedID" && primary != nil &&
 					((sameObj(bx, base) && sameObj(by, primary)) || (sameObj(by, base) && sameObj(bx, primary))) {
 					continue
+				}
+				// elem.fixedID != keyID, keyID being the ID the new primary was found by
+				if isC && op == token.NEQ && primary != nil {
+					for _, pr := range [][2]ssa.Value{{x, y}, {y, x}} {
+						bb, ff, okf := guard.FieldOf(pr[0])
+						if !okf || ff != "fixedID" || !sameObj(bb, base) {
+							continue
+						}
+						if pc, pi := guard.CallOf(primary); pc != nil && pi == 0 && strings.HasSuffix(guard.CalleeName(&pc.Call), "keyset.findEntry") && len(pc.Call.Args) == 2 && guard.Strip(pc.Call.Args[1]) == guard.Strip(pr[1]) {
+							okGuard = true
+						}
+					}
+					if okGuard {
+						okGuard = false
+						continue
+					}
 				}
 				// the element itself is not the new primary (pointer inequality)
 				if isC && op == token.NEQ && primary != nil && ((sameObj(x, base) && sameObj(y, primary)) || (sameObj(y, base) && sameObj(x, primary))) {
@@ -997,12 +1014,213 @@ func c11AppendID(c *Ctx, m *ssa.Function, call *ssa.Call, alloc *ssa.Alloc, idSt
 			}
 		}
 	}
-	if last == nil {
-		r.Bad("C11.ids", key, p.Pos(call.Pos()), "no fixedID store dominates the append")
-		return
+	why := "no fixedID store dominates the append"
+	if last != nil {
+		var ok bool
+		if ok, why = idRecordedV(c, last, call.Block(), 0); ok {
+			r.Ok("C11.ids", key, p.Pos(call.Pos()), why)
+			return
+		}
 	}
-	ok, why := idRecorded(last, call.Block(), 0)
-	r.Check(ok, "C11.ids", key, p.Pos(call.Pos()), "an entry is appended with an ID that is not guaranteed unused and recorded: "+why, why)
+	// path form: on each path to the append, the last fixedID store on that path
+	// (or, without one, the value the field already holds) decides
+	if ok, why2 := c11AppendIDPaths(c, call, alloc); ok {
+		r.Ok("C11.ids", key, p.Pos(call.Pos()), why2)
+		return
+	} else if last == nil {
+		why = why2
+	}
+	r.Bad("C11.ids", key, p.Pos(call.Pos()), "an entry is appended with an ID that is not guaranteed unused and recorded: "+why)
+}
+
+// idRecordedV is idRecorded, with an ID that is a parameter of an unexported
+// helper of the package decided at each call site of the helper.
+func idRecordedV(c *Ctx, id ssa.Value, at *ssa.BasicBlock, depth int) (bool, string) {
+	prm, isP := guard.Strip(id).(*ssa.Parameter)
+	if !isP || depth > 2 {
+		return idRecorded(id, at, 0)
+	}
+	g := prm.Parent()
+	if g == nil || g.Parent() != nil || g.Object() == nil || g.Object().Exported() {
+		return idRecorded(id, at, 0)
+	}
+	idx := -1
+	for i, q := range g.Params {
+		if q == prm {
+			idx = i
+		}
+	}
+	n := 0
+	okAll, whyBad := true, ""
+	for _, f := range c.P.SortedFuncs(core.Product) {
+		if f.Pkg != g.Pkg {
+			continue
+		}
+		allInstrs(f, func(ins ssa.Instruction) {
+			switch x := ins.(type) {
+			case ssa.CallInstruction:
+				if x.Common().StaticCallee() == g && idx < len(x.Common().Args) {
+					n++
+					if _, isCall := x.(*ssa.Call); !isCall {
+						okAll, whyBad = false, "helper "+g.Name()+" is started with go/defer"
+						return
+					}
+					if ok, why := idRecordedV(c, x.Common().Args[idx], x.Block(), depth+1); !ok {
+						okAll, whyBad = false, fmt.Sprintf("at the call of %s in %s: %s", g.Name(), f.Name(), why)
+					}
+				}
+			}
+			// the helper used as a value: its callers are not all known
+			for _, op := range ins.Operands(nil) {
+				if *op == ssa.Value(g) {
+					if ci, isC := ins.(ssa.CallInstruction); !isC || ci.Common().Value != ssa.Value(g) {
+						okAll, whyBad = false, "helper "+g.Name()+" is used as a value"
+					}
+				}
+			}
+		})
+	}
+	if n == 0 {
+		return false, "helper " + g.Name() + " taking the ID has no call site"
+	}
+	if !okAll {
+		return false, whyBad
+	}
+	return true, fmt.Sprintf("the ID is parameter %s of %s; at each of its %d call sites it was found absent from unavailableKeyIDs (or drawn by newRandomKeyID) and recorded", prm.Name(), g.Name(), n)
+}
+
+func c11AppendIDPaths(c *Ctx, call *ssa.Call, alloc *ssa.Alloc) (bool, string) {
+	st := alloc.Type().Underlying().(*types.Pointer).Elem().Underlying().(*types.Struct)
+	isIDAddr := func(v ssa.Value) bool {
+		fa, ok := v.(*ssa.FieldAddr)
+		return ok && fa.X == ssa.Value(alloc) && st.Field(fa.Field).Name() == "fixedID"
+	}
+	// anything that may change alloc.fixedID between ins and the append
+	noModAfter := func(ins ssa.Instruction) (bool, string) {
+		ok, why := true, ""
+		allInstrs(alloc.Parent(), func(x ssa.Instruction) {
+			if x == ins || x == ssa.Instruction(call) {
+				return
+			}
+			mod := false
+			switch y := x.(type) {
+			case *ssa.Store:
+				mod = isIDAddr(y.Addr)
+			case ssa.CallInstruction:
+				for _, a := range y.Common().Args {
+					if guard.Strip(a) == ssa.Value(alloc) {
+						mod = true
+					}
+				}
+			case *ssa.MakeClosure:
+				for _, b := range y.Bindings {
+					if guard.Strip(b) == ssa.Value(alloc) {
+						ok, why = false, "the entry is captured by a closure"
+					}
+				}
+			}
+			if mod && guard.Reaches(ins, x) && guard.Reaches(x, call) {
+				ok, why = false, "the entry's fixedID may change after the ID was checked ("+c.P.Pos(x.Pos())+")"
+			}
+		})
+		return ok, why
+	}
+	paths, ok := guard.PathsTo(call.Block(), 20000)
+	if !ok || len(paths) == 0 {
+		return false, "paths to the append could not be enumerated"
+	}
+	notedOn := func(id ssa.Value, pa guard.Path) bool {
+		if ok, _ := idNoted(id, call.Block(), 0); ok {
+			return true
+		}
+		for _, b := range pa.Blocks {
+			for _, ins := range b.Instrs {
+				if ins == ssa.Instruction(call) {
+					break
+				}
+				switch x := ins.(type) {
+				case *ssa.MapUpdate:
+					if bv, isC := guard.ConstBool(x.Value); isC && bv && isUnavailMap(x.Map) && guard.SameValue(x.Key, id) {
+						return true
+					}
+				case *ssa.Call:
+					if sum, has := c11Reserve[x.Call.StaticCallee()]; has && sum.alwaysNoted && len(x.Call.Args) > sum.idArg && guard.SameValue(x.Call.Args[sum.idArg], id) {
+						return true
+					}
+				}
+			}
+		}
+		for _, f := range pa.Facts {
+			if c2, val, isB := guard.BoolCallFact(f); isB && val {
+				if sum, has := c11Reserve[c2.Call.StaticCallee()]; has && sum.trueNoted && len(c2.Call.Args) > sum.idArg && guard.SameValue(c2.Call.Args[sum.idArg], id) {
+					return true
+				}
+			}
+		}
+		return false
+	}
+	nStore, nHeld := 0, 0
+	for _, pa := range paths {
+		var lastSt *ssa.Store
+		var loads []*ssa.UnOp
+	walk:
+		for _, b := range pa.Blocks {
+			for _, ins := range b.Instrs {
+				if ins == ssa.Instruction(call) {
+					break walk
+				}
+				switch x := ins.(type) {
+				case *ssa.Store:
+					if isIDAddr(x.Addr) {
+						lastSt, loads = x, nil // loads: those after the last store
+					}
+				case *ssa.UnOp:
+					if x.Op == token.MUL && isIDAddr(x.X) {
+						loads = append(loads, x)
+					}
+				}
+			}
+		}
+		why := "a path appends the entry with the fixedID it already holds, which was not found absent from unavailableKeyIDs and recorded"
+		if lastSt != nil {
+			okSt, w := noModAfter(lastSt)
+			if okSt {
+				if _, isP := guard.Strip(lastSt.Val).(*ssa.Parameter); isP {
+					okSt, w = idRecordedV(c, lastSt.Val, call.Block(), 0)
+				} else if okSt, w = idAbsent(lastSt.Val, pa.Facts, 0); okSt && !notedOn(lastSt.Val, pa) {
+					okSt, w = false, fmt.Sprintf("ID value %s is not recorded in unavailableKeyIDs before the entry is appended", valName(lastSt.Val))
+				}
+			}
+			if okSt {
+				nStore++
+				continue
+			}
+			why = w
+			// otherwise a later load of the field may have been checked
+		}
+		// no store on this path: the field keeps the value it has; some load of it
+		// must have been found absent and recorded, with nothing changing it later
+		held := false
+		for _, l := range loads {
+			if ok, _ := idAbsent(l, pa.Facts, 0); !ok {
+				continue
+			}
+			if !notedOn(l, pa) {
+				continue
+			}
+			if ok, w := noModAfter(l); !ok {
+				why = w
+				continue
+			}
+			held = true
+			break
+		}
+		if !held {
+			return false, why
+		}
+		nHeld++
+	}
+	return true, fmt.Sprintf("on each of the %d paths to the append the entry's ID (%d: last fixedID store on the path; %d: the value the field holds) was found absent from unavailableKeyIDs (or drawn by newRandomKeyID) and recorded, and nothing can change it afterwards", len(paths), nStore, nHeld)
 }
 
 var lastStoreIns ssa.Instruction
